@@ -5,7 +5,7 @@
   the sub-project's duration (optionally without its absence steps) as its work amount and, once
   its unit time is related to the parent project's, occupies exactly
   `⌈duration × sub-project unit / parent unit⌉` working steps of the parent simulation, starting
-  as soon as its dependencies allow and needing no workers.  Configuring it from a project that
+  at the first working step at which its dependencies allow it and needing no workers.  Configuring it from a project that
   was not simulated successfully is refused with a warning and leaves the task unchanged.
 
   Reading guide
@@ -25,9 +25,15 @@
     `Auto.ceilNat x` = `⌈x⌉` as a natural number (`x.ceil.toNat`).
   * Part C — A and B combined (`C20_steps`).
 
+  Nothing starts at an INACTIVE step (a project absence step while automatic tasks are not
+  performed during absence): a task that becomes READY there waits in READY, with all its work,
+  until the next active step; a WORKING task rests there.  So the occupation runs from the first
+  ACTIVE step at or after the step at which the dependencies allow the start.
+
   Known corner (kept as a finding, not claimed away): a task of duration 0 that becomes READY is
   still started and performed once, so it occupies one step instead of none; Part B is therefore
-  stated for `D > 0` (`C20_iteration` shows the corner: READY with `x ≤ 0` ends WORKING).
+  stated for `D > 0` (`C20_iteration` shows the corner: READY with `x ≤ 0` ends an active step
+  WORKING).
 -/
 import PDesy.Lemmas.Auto
 import PDesy.Props.C01
@@ -142,8 +148,10 @@ example : ceilNat ((3 : Rat) / 2) = 2 ∧ ceilNat ((4 : Rat) / 2) = 2 ∧ ceilNa
 remaining work `x = s.live.rem t`, then after one loop iteration the time has advanced by 1 and
 * if it was WORKING with `x ≤ 0`, it is FINISHED with remaining work 0 (it finishes in
   `__update`);
-* otherwise it is WORKING (a READY task is started in the same iteration, needing no worker) and
-  its remaining work is `x − r` if the step is active, `x` if not. -/
+* otherwise, if the step is active, it is WORKING (a READY task is started in the same
+  iteration, needing no worker) and its remaining work is `x − r`;
+* otherwise, if the step is inactive (project absence, flag off), its state is unchanged — a
+  READY task is not started there, a WORKING task rests — and its remaining work is `x`. -/
 theorem C20_iteration (m : Model) (p : Params) (s : St) (t : Nat)
     (ht : t < m.nT) (ha : (m.task t).isAuto = true) (hc : (m.task t).comp = Option.none)
     (hg : ∀ e ∈ (m.task t).inputs, e.2 = .fs ∨ e.2 = .ss)
@@ -152,7 +160,8 @@ theorem C20_iteration (m : Model) (p : Params) (s : St) (t : Nat)
     (if s.live.tstate t = .working ∧ s.live.rem t ≤ 0 then
       (iter m p s).live.tstate t = .finished ∧ (iter m p s).live.rem t = 0
     else
-      (iter m p s).live.tstate t = .working ∧
+      (iter m p s).live.tstate t =
+        (if activeAt p s.time = true then .working else s.live.tstate t) ∧
       (iter m p s).live.rem t =
         s.live.rem t - (if activeAt p s.time = true then (m.task t).autoRate else 0)) := by
   have h : SubTask m t := ⟨ht, ha, hc, hg⟩
@@ -162,8 +171,10 @@ theorem C20_iteration (m : Model) (p : Params) (s : St) (t : Nat)
     exact iter_working_done h p s hd.1 hd.2
   · rename_i hd
     rcases hs with hs | hs
-    · exact iter_ready h p s hs
-    · exact iter_working_pos h p s hs (Rat.not_le.mp fun hle => hd ⟨hs, hle⟩)
+    · rw [hs]; exact iter_ready h p s hs
+    · have := iter_working_pos h p s hs (Rat.not_le.mp fun hle => hd ⟨hs, hle⟩)
+      refine ⟨?_, this.2⟩
+      rw [this.1, hs]; split <;> rfl
 
 /-- **C20 (recorded states are iterations).**  Entry `j + k` of the list of recorded states of a
 run arises from entry `j` by `k` iterations, so everything below applies to the recorded states
@@ -181,17 +192,20 @@ theorem C20_time (m : Model) (p : Params) (s0 : St) (k : Nat) :
 /-- **C20 (occupation, while work is left).**  Setting as above, rate `r > 0`; `s0` is a state
 whose `__update` leaves the task READY (it was READY, or it was NONE and its start gate has
 just opened) with remaining work `D`; `n = ⌈D / r⌉`.  As long as fewer than `n` active steps
-happened *before* an iteration, the task ends that iteration WORKING with remaining work
-`D − acts · r`, where `acts` counts the active steps up to and including this iteration; and as
-long as fewer than `n` happened up to and including it, that remaining work is positive.  (In an
-inactive step `acts` does not grow: the task stays WORKING with unchanged remaining work.) -/
+happened *before* an iteration, the task ends that iteration with remaining work
+`D − acts · r`, where `acts` counts the active steps up to and including this iteration —
+still READY (with all of `D`) while `acts = 0`, i.e. before the first active step, and WORKING
+once `acts ≥ 1`; and as long as fewer than `n` happened up to and including it, that remaining
+work is positive.  (In an inactive step `acts` does not grow: the task keeps its state and its
+remaining work.) -/
 theorem C20_working (m : Model) (p : Params) (s0 : St) (t : Nat)
     (ht : t < m.nT) (ha : (m.task t).isAuto = true) (hc : (m.task t).comp = Option.none)
     (hg : ∀ e ∈ (m.task t).inputs, e.2 = .fs ∨ e.2 = .ss)
     (hr : 0 < (m.task t).autoRate) {D : Rat} (hD : 0 < D)
     (hstart : (updated m s0).live.tstate t = .ready) (hrem : s0.live.rem t = D)
     (k : Nat) (hk : acts p s0.time k < ceilNat (D / (m.task t).autoRate)) :
-    (Nat.repeat (iter m p) (k + 1) s0).live.tstate t = .working ∧
+    (Nat.repeat (iter m p) (k + 1) s0).live.tstate t =
+      (if acts p s0.time (k + 1) = 0 then .ready else .working) ∧
     (Nat.repeat (iter m p) (k + 1) s0).live.rem t =
       D - (acts p s0.time (k + 1) : Rat) * (m.task t).autoRate ∧
     (acts p s0.time (k + 1) < ceilNat (D / (m.task t).autoRate) →
@@ -205,8 +219,10 @@ theorem C20_working (m : Model) (p : Params) (s0 : St) (t : Nat)
 `K + 1` be the one in which the `n`-th active step happens (`acts … K < n`,
 `acts … (K + 1) = n`).  Then
 * after it the task is WORKING with remaining work `D − n · r ≤ 0`;
-* the task is WORKING at the end of exactly the iterations `1, …, K + 1` — exactly `n` active
-  steps, consecutive except for inactive steps in between;
+* the task is WORKING at the end of exactly the iterations from the one of the first active
+  step (`1 ≤ acts … j`) to `K + 1` — exactly `n` active steps, consecutive except for inactive
+  steps in between;
+* before the first active step (`acts … j = 0`) it is READY with remaining work `D`;
 * from iteration `K + 2` on it is FINISHED with remaining work 0. -/
 theorem C20_occupation (m : Model) (p : Params) (s0 : St) (t : Nat)
     (ht : t < m.nT) (ha : (m.task t).isAuto = true) (hc : (m.task t).comp = Option.none)
@@ -219,13 +235,18 @@ theorem C20_occupation (m : Model) (p : Params) (s0 : St) (t : Nat)
      (Nat.repeat (iter m p) (K + 1) s0).live.rem t =
        D - (ceilNat (D / (m.task t).autoRate) : Rat) * (m.task t).autoRate ∧
      D - (ceilNat (D / (m.task t).autoRate) : Rat) * (m.task t).autoRate ≤ 0) ∧
-    (∀ j, 1 ≤ j → ((Nat.repeat (iter m p) j s0).live.tstate t = .working ↔ j ≤ K + 1)) ∧
+    (∀ j, 1 ≤ j → ((Nat.repeat (iter m p) j s0).live.tstate t = .working ↔
+      1 ≤ acts p s0.time j ∧ j ≤ K + 1)) ∧
+    (∀ j, 1 ≤ j → acts p s0.time j = 0 →
+      (Nat.repeat (iter m p) j s0).live.tstate t = .ready ∧
+      (Nat.repeat (iter m p) j s0).live.rem t = D) ∧
     (∀ j, K + 2 ≤ j → (Nat.repeat (iter m p) j s0).live.tstate t = .finished ∧
         (Nat.repeat (iter m p) j s0).live.rem t = 0) := by
   have h : SubTask m t := ⟨ht, ha, hc, hg⟩
-  have hn := (ceilNat_spec hD hr).2
-  have hf := run_finished h p s0 hr hstart hrem hn K hK hK'
-  refine ⟨hf.1, fun j hj => run_working_iff h p s0 hr hstart hrem hn K hK hK' j hj, ?_⟩
+  obtain ⟨hn1, hn⟩ := ceilNat_spec hD hr
+  have hf := run_finished h p s0 hr hstart hrem hn hn1 K hK hK'
+  refine ⟨hf.1, fun j hj => run_working_iff h p s0 hr hstart hrem hn hn1 K hK hK' j hj,
+    fun j hj hz => run_ready h p s0 hr hstart hrem hn hn1 j hj hz, ?_⟩
   intro j hj
   have := hf.2 (j - (K + 2))
   rwa [show K + 2 + (j - (K + 2)) = j by omega] at this
@@ -266,8 +287,9 @@ theorem C20_duration_no_absence (m : Model) (p : Params) (s0 : St) (t : Nat)
     obtain ⟨k', rfl⟩ : ∃ k', k = k' + 1 := ⟨k - 1, by omega⟩
     have := (C20_working m p s0 t ht ha hc hg hr hD hstart hrem k' (by rw [hacts]; omega)).2.1
     rw [this, hacts]
-  · intro j hj; rw [hKn]; exact hocc.2.1 j hj
-  · intro j hj; exact hocc.2.2 j (by omega)
+  · intro j hj; rw [hKn, hocc.2.1 j hj, hacts]
+    exact ⟨fun h => h.2, fun h => ⟨hj, h⟩⟩
+  · intro j hj; exact hocc.2.2.2 j (by omega)
 
 /-- every step is active when the run has no project absence or performs automatic tasks during
 absence -/
@@ -288,9 +310,10 @@ theorem C20_no_worker (m : Model) (p : Params) (s0 : St) (t : Nat)
 
 /-- **C20 (what the log shows).**  Same setting and `K` as in `C20_occupation`.  The rows the
 iterations `1, …, K + 1` append to the task's state log are WORKING on working steps and READY
-on project-absence steps (a WORKING task is displayed READY there), the next row is FINISHED,
-and — when automatic tasks are not performed during absence — exactly `n` of the `K + 1` rows
-show WORKING. -/
+on project-absence steps (before its first active step the task IS still READY — such a step is
+a project-absence step —, afterwards a WORKING task is displayed READY on an absence step), the
+next row is FINISHED, and — when automatic tasks are not performed during absence — exactly `n`
+of the `K + 1` rows show WORKING. -/
 theorem C20_log (m : Model) (p : Params) (s0 : St) (t : Nat)
     (ht : t < m.nT) (ha : (m.task t).isAuto = true) (hc : (m.task t).comp = Option.none)
     (hg : ∀ e ∈ (m.task t).inputs, e.2 = .fs ∨ e.2 = .ss)
@@ -313,10 +336,19 @@ theorem C20_log (m : Model) (p : Params) (s0 : St) (t : Nat)
     · apply List.map_congr_left
       intro j hj
       have hj' : j < K + 1 := List.mem_range.mp hj
-      rw [(hocc.2.1 (j + 1) (by omega)).mpr (by omega)]
-      cases hw : workingAt p (s0.time + j) <;> simp [showT]
+      by_cases hz : acts p s0.time (j + 1) = 0
+      · -- before the first active step: READY, and the step is a project absence step
+        rw [(hocc.2.2.1 (j + 1) (by omega) hz).1]
+        have hna := ((acts_succ_eq_zero p s0.time j).mp hz).2
+        have hw : workingAt p (s0.time + j) = false := by
+          cases hw : workingAt p (s0.time + j)
+          · rfl
+          · exfalso; apply hna; unfold activeAt; unfold workingAt at hw; rw [hw]; rfl
+        rw [hw]; simp [showT]
+      · rw [(hocc.2.1 (j + 1) (by omega)).mpr ⟨by omega, by omega⟩]
+        cases hw : workingAt p (s0.time + j) <;> simp [showT]
     · simp only [List.map_cons, List.map_nil]
-      rw [(hocc.2.2 (K + 1 + 1) (by omega)).1]
+      rw [(hocc.2.2.2 (K + 1 + 1) (by omega)).1]
       cases workingAt p (s0.time + (K + 1)) <;> simp [showT]
   · intro hf
     have := count_shownWorking p s0.time (K + 1) hf
@@ -325,18 +357,21 @@ theorem C20_log (m : Model) (p : Params) (s0 : St) (t : Nat)
 
 /-- **C20 (starts as soon as its dependencies allow).**  Setting as above.  If the task is still
 NONE in `s` and its start gate is open in the updated state of this iteration (every FS
-predecessor FINISHED, every SS predecessor started), then it is READY in that updated state and
-WORKING — not READY — at the end of this very iteration, already performed once if the step is
-active.  Conversely, while the gate is closed in the updated state it stays NONE with its
-remaining work untouched.  (`C06_ready`: no task is NONE with an open gate after `__update`;
-`C06_auto_step`: an automatic task without component never ends a step READY.) -/
+predecessor FINISHED, every SS predecessor started), then it is READY in that updated state and,
+if the step is active, WORKING — not READY — at the end of this very iteration, already
+performed once; if the step is inactive (a project absence step, flag off) nothing starts: it
+ends the iteration READY with its remaining work untouched, and starts at the next active step
+(`C20_iteration`, `C20_working`).  Conversely, while the gate is closed in the updated state it
+stays NONE with its remaining work untouched.  (`C06_ready`: no task is NONE with an open gate
+after `__update`; `C06_auto_step`: an automatic task without component never ends an active
+step READY.) -/
 theorem C20_starts (m : Model) (p : Params) (s : St) (t : Nat)
     (ht : t < m.nT) (ha : (m.task t).isAuto = true) (hc : (m.task t).comp = Option.none)
     (hg : ∀ e ∈ (m.task t).inputs, e.2 = .fs ∨ e.2 = .ss)
     (hnone : s.live.tstate t = .none) :
     (readyGate m (updated m s).live.tstate t = true →
       (updated m s).live.tstate t = .ready ∧
-      (iter m p s).live.tstate t = .working ∧
+      (iter m p s).live.tstate t = (if activeAt p s.time = true then .working else .ready) ∧
       (iter m p s).live.rem t =
         s.live.rem t - (if activeAt p s.time = true then (m.task t).autoRate else 0)) ∧
     (readyGate m (updated m s).live.tstate t = false →
@@ -426,6 +461,27 @@ example : ((List.range 6).map fun k => ((at' k).live.tstate 0, (at' k).live.rem 
   decide +kernel
 
 open C20Ex in
+/-- the same model when steps 0 and 2 are project absence steps (flag off): task 0 becomes READY
+at the inactive step 0 and is NOT started there (`acts … 1 = 0`: READY with all its work after
+iteration 1); it starts at step 1, rests at step 2, is performed a second time (`n = 2`) at step
+3 (`K = 3`) and is FINISHED from iteration 5 on; the log shows READY, WORKING, READY, WORKING,
+FINISHED -/
+example :
+    acts { absence := [0, 2], maxTime := 20 } 0 1 = 0 ∧
+    acts { absence := [0, 2], maxTime := 20 } 0 3 < 2 ∧
+    acts { absence := [0, 2], maxTime := 20 } 0 4 = 2 ∧
+    ((List.range 6).map fun k =>
+      ((Nat.repeat (iter mS { absence := [0, 2], maxTime := 20 }) k
+          (enter mS { absence := [0, 2], maxTime := 20 } St.fresh)).live.tstate 0,
+       (Nat.repeat (iter mS { absence := [0, 2], maxTime := 20 }) k
+          (enter mS { absence := [0, 2], maxTime := 20 } St.fresh)).live.rem 0)) =
+      [(.ready, 3), (.ready, 3), (.working, 1), (.working, 1), (.working, -1), (.finished, 0)] ∧
+    (Nat.repeat (iter mS { absence := [0, 2], maxTime := 20 }) 5
+        (enter mS { absence := [0, 2], maxTime := 20 } St.fresh)).logs.tState 0 =
+      [.ready, .working, .ready, .working, .finished] := by
+  decide +kernel
+
+open C20Ex in
 /-- the hypotheses of `C20_starts` for task 1 at the iteration that starts it -/
 example : (at' 3).live.tstate 1 = .none ∧
     readyGate mS (updated mS (at' 3)).live.tstate 1 = true ∧
@@ -454,7 +510,8 @@ the task READY with its work amount as remaining work, let
     n = ⌈duration × res.unit / parentUnit⌉
 
 and let iteration `K + 1` be the one in which the `n`-th active step happens.  Then the task is
-WORKING at the end of exactly the iterations `1, …, K + 1` (so during exactly `n` active steps),
+WORKING at the end of exactly the iterations from the one of its first active step
+(`1 ≤ acts … j`; before it, it waits in READY) to `K + 1` (so during exactly `n` active steps),
 its remaining work after iteration `k + 1 ≤ K + 1` is `duration − acts · parentUnit / res.unit`,
 and it is FINISHED with remaining work 0 from iteration `K + 2` on. -/
 theorem C20_steps (m : Model) (p : Params) (s0 : St) (t : Nat)
@@ -469,7 +526,8 @@ theorem C20_steps (m : Model) (p : Params) (s0 : St) (t : Nat)
     (K : Nat)
     (hK : acts p s0.time K < ceilNat ((durationOf res remove : Rat) * res.unit / parentUnit))
     (hK' : acts p s0.time (K + 1) = ceilNat ((durationOf res remove : Rat) * res.unit / parentUnit)) :
-    (∀ j, 1 ≤ j → ((Nat.repeat (iter m p) j s0).live.tstate t = .working ↔ j ≤ K + 1)) ∧
+    (∀ j, 1 ≤ j → ((Nat.repeat (iter m p) j s0).live.tstate t = .working ↔
+      1 ≤ acts p s0.time j ∧ j ≤ K + 1)) ∧
     (∀ k, k ≤ K → (Nat.repeat (iter m p) (k + 1) s0).live.rem t =
       (durationOf res remove : Rat) - (acts p s0.time (k + 1) : Rat) * (parentUnit / res.unit)) ∧
     (∀ j, K + 2 ≤ j → (Nat.repeat (iter m p) j s0).live.tstate t = .finished ∧
@@ -495,7 +553,7 @@ theorem C20_steps (m : Model) (p : Params) (s0 : St) (t : Nat)
     grind
   rw [← hquot] at hK hK'
   have hocc := C20_occupation m p s0 t ht ha hc hg hr hDr hstart hrem' K hK hK'
-  refine ⟨hocc.2.1, ?_, hocc.2.2⟩
+  refine ⟨hocc.2.1, ?_, hocc.2.2.2⟩
   intro k hk
   have := (C20_working m p s0 t ht ha hc hg hr hDr hstart hrem' k
     (Nat.lt_of_le_of_lt (acts_mono p s0.time hk) hK)).2.1
